@@ -2515,6 +2515,65 @@ def _c13_gate_worker(args):
     return res
 
 
+def _c13_unreadable_worker(args):
+    """`hub-sync LOCAL ROOT` run as an UNPRIVILEGED user (root reads everything, so the ordinary runs cannot see
+    this): one regular file under LOCAL is mode 000. Exit status 0 claims that every regular file under LOCAL is
+    on the hub; a file that could not be read is not, so the run must not exit 0 - or must deliver it."""
+    seedv, idx, wroot = args
+    res = {"evaluations": 0, "distinct": set(), "viol": [], "counters": {}, "samples": [], "inconclusive": 0}
+    rng = SplitMix.derive(seedv, "c13unreadable", idx)
+    wd = os.path.join(wroot, "ur%d" % idx)
+    rmtree(wd)
+    local, hubroot, home = os.path.join(wd, "local"), os.path.join(wd, "hub"), os.path.join(wd, "home")
+    n = rng.pick([3, 8, 60, 130])
+    files = {"d%02d/f%03d" % (i % 7, i): b"content %d %s" % (i, rng.bytes(3).hex().encode()) for i in range(n)}
+    victim = rng.pick(sorted(files)[: max(1, n // 2)])
+    materialise(local, files)
+    os.makedirs(hubroot)
+    os.makedirs(home)
+    subprocess.run(["chmod", "-R", "a+rwX", wd], check=False)
+    p_ = wd
+    while p_ not in ("/", ""):
+        # every directory above must let the unprivileged user through
+        try:
+            os.chmod(p_, os.stat(p_).st_mode | 0o055)
+        except OSError:
+            pass
+        p_ = os.path.dirname(p_)
+        if not p_.startswith(os.path.dirname(wroot)):
+            break
+    os.chmod(os.path.join(local, victim), 0)
+    probe = subprocess.run(["setpriv", "--reuid=65534", "--regid=65534", "--clear-groups", "cat", os.path.join(local, sorted(files)[-1])], capture_output=True)
+    probe2 = subprocess.run(["setpriv", "--reuid=65534", "--regid=65534", "--clear-groups", "cat", os.path.join(local, victim)], capture_output=True)
+    if probe.returncode != 0 or probe2.returncode == 0:
+        res["inconclusive"] += 1  # this machine does not let us stage the situation (no setpriv, path not traversable)
+        res["counters"]["unprivileged_stage_not_available"] = 1
+        rmtree(wd)
+        return res
+    env = base_env(home)
+    r = run(["--reuid=65534", "--regid=65534", "--clear-groups", COPIA, "hub-sync", local, hubroot], env, cwd=home, timeout=120, copia="setpriv")
+    if r.timed_out:
+        res["inconclusive"] += 1
+        rmtree(wd)
+        return res
+    res["evaluations"] += 1
+    res["counters"]["hub_sync_runs_as_an_unprivileged_user_with_an_unreadable_file"] = 1
+    tree = walk_root(hubroot)
+    label = {"files": n, "unreadable": victim, "exit": r.code, "stdout_tail": r.stdout[-160:], "stderr_tail": r.stderr[-200:]}
+    if r.code == 0:
+        missing = sorted(pth for pth in files if tree.get(pth, (None,))[0] != ident(files[pth]))
+        if missing:
+            res["viol"].append(("C13|exit0-local-file-missing-from-hub|unreadable-local-file", dict(label, missing=missing[:4], missing_count=len(missing))))
+    else:
+        res["counters"]["unreadable_file_reported_with_nonzero_exit"] = 1
+        if "rror" not in r.stderr and "rror" not in r.stdout:
+            res["viol"].append(("C13|nonzero-exit-without-error-report|unreadable-local-file", label))
+    res["distinct"].add("unreadable|n%d|exit%s" % (n, r.code))
+    os.chmod(os.path.join(local, victim), 0o644)
+    rmtree(wd)
+    return res
+
+
 def c13(tier):
     build("cli", "shim", "vh")
     r = Result("C13", "exploration", "sequential part: one evaluation = one `hub-sync LOCAL TARGET` in a sequence by 1-3 clients (hostile names, empty and > 256 KiB files; local-path target and vh:ROOT through the ssh stand-in): after exit 0 every local file is on the hub byte-identical, other hub paths keep bytes and inode, counters equal the model, and the immediate second run sends 0 while the traced server makes no mutating call under ROOT; gated part: one evaluation = two real hub-sync processes whose `serve` children run in gate mode; the scheduler holds one server right after it listed the tree and lets the other client finish (stale listing), with jittered and random variants; then exit status <=> conflicts, every local file of both clients is on the hub at its path or at path.conflict-<12 hex of its BLAKE3>, live content of contested paths is one client's; distinct non-trivial = sequences with both sent and skipped files, gated schedules in which a CAS conflict occurred")
@@ -2526,6 +2585,7 @@ def c13(tier):
     jobs2 = [(seed(), lo, min(n2, lo + max(1, n2 // (NCPU * 2))), wroot) for lo in range(0, n2, max(1, n2 // (NCPU * 2)))]
     fold(r, run_jobs(_c13_seq_worker, jobs1))
     fold(r, run_jobs(_c13_gate_worker, jobs2))
+    fold(r, run_jobs(_c13_unreadable_worker, [(seed(), i, wroot) for i in range(60 if th else 8)]))
     rmtree(wroot)
     r.assumptions = ["in the gated part the hub-sync parents run freely; only their serve children are scheduled", "a local file missing from the hub is accepted only if the other client's different content is live there and that client reported no conflict on the path (a later acknowledged commit with a fresh listing)"]
     if tier == "thorough":
